@@ -123,10 +123,20 @@ def ref_version(text):
     return tuple(int(x) if x else 0 for x in m.groups())
 
 
+def ref_pep440(text):
+    """a packaging.version.Version, or None if the text is no version"""
+    from packaging.version import Version, InvalidVersion
+    try:
+        return Version(text.strip())
+    except InvalidVersion:
+        return None
+
+
 def ref_defective(h5):
     """Hand-written reference (from the documented rules, NOT calling
-    dclab.rtdc_dataset.fmt_hdf5.feat_defect) of the stored features a reader
-    must ignore: set of feature names."""
+    dclab.rtdc_dataset.fmt_hdf5.feat_defect; versions are compared with the
+    `packaging` library) of the stored features a reader must ignore."""
+    from packaging.version import Version
     sv = h5.attrs.get("setup:software version", "")
     if isinstance(sv, bytes):
         sv = sv.decode("utf-8")
@@ -136,7 +146,12 @@ def ref_defective(h5):
     pipeline = [x.strip() for x in sv.split("|")]
     last_dclab = None
     if sv and pipeline[-1].startswith("dclab"):
-        last_dclab = ref_version(pipeline[-1][len("dclab"):])
+        # "dclab <version>": the second blank-separated word
+        words = pipeline[-1].split()
+        last_dclab = ref_pep440(words[1]) if len(words) > 1 else None
+
+    def older(v):
+        return last_dclab is not None and last_dclab < Version(v)
     out = set()
     # aspect: wrong cast in exactly these two Shape-In versions
     if sv in ("ShapeIn 2.0.6", "ShapeIn 2.0.7"):
@@ -147,29 +162,54 @@ def ref_defective(h5):
     if "frame" in ev and rate != 0 and "time" in ev:
         if ev["time"].dtype.kind == "f" and ev["time"].dtype.itemsize == 4:
             out.add("time")
-        elif "ShapeIn" in sv and last_dclab is not None \
-                and last_dclab < (0, 47, 6):
+        elif "ShapeIn" in sv and older("0.47.6"):
             out.add("time")
     # volume: wrong until dclab 0.36.1 unless the scripted repair was logged
-    if "dclab_issue_141" not in logs and last_dclab is not None \
-            and last_dclab < (0, 37, 0):
+    if "dclab_issue_141" not in logs and older("0.37.0"):
         out.add("volume")
-    # inertia ratios / tilt: integer overflow for wide ROIs until 0.48.2
-    if h5.attrs.get("imaging:roi size x", 0) > 500 \
-            and last_dclab is not None and last_dclab < (0, 48, 3):
+    # inertia ratios / tilt: integer overflow for wide ROIs until 0.48.2;
+    # the raw/cvx values computed by Shape-In >= 2.0.5 itself are fine
+    if h5.attrs.get("imaging:roi size x", 0) > 500 and older("0.48.3"):
         out.update(["inert_ratio_prnc", "tilt"])
         first = pipeline[0]
+        si = None
+        known = False
         if first.startswith("ShapeIn"):
-            si = ref_version(first[len("ShapeIn"):])
-            if si is None or si < (2, 0, 5):
-                out.update(["inert_ratio_raw", "inert_ratio_cvx"])
-        else:
+            words = first.split()
+            si = ref_pep440(words[1]) if len(words) > 1 else None
+            known = True
+        elif "shapein-acquisition" in logs:
+            # newer Shape-In writes the bare version
+            si = ref_pep440(first)
+            known = True
+        if not known or si is None or si < Version("2.0.5"):
             out.update(["inert_ratio_raw", "inert_ratio_cvx"])
     return set(x for x in out if x in ev)
 
 
 DEFECT_CODES = {"aspect": 1, "inert_ratio_cvx": 2, "inert_ratio_prnc": 3,
                 "inert_ratio_raw": 4, "tilt": 5, "time": 6, "volume": 7}
+
+
+def model_version(text):
+    """(major, minor, micro, phase) as Model/C08.v [ver] wants it: phase < 0
+    for dev/a/b/rc, 0 for a release, > 0 for post releases or more than three
+    release components; None if the text does not start like a version"""
+    m = re.match(r"^\s*v?(\d+)(?:\.(\d+))?(?:\.(\d+))?((?:\.\d+)*)"
+                 r"\s*[-_.]?\s*(dev|a|alpha|b|beta|c|rc|pre|preview|post|rev|r)?",
+                 text, re.I)
+    if not m:
+        return None
+    rel = tuple(int(x) if x else 0 for x in m.groups()[:3])
+    extra = [int(x) for x in m.group(4).split(".") if x]
+    tag = (m.group(5) or "").lower()
+    if tag in ("dev", "a", "alpha", "b", "beta", "c", "rc", "pre", "preview"):
+        phase = -1
+    elif tag in ("post", "rev", "r") or any(extra):
+        phase = 1
+    else:
+        phase = 0
+    return rel + (phase,)
 
 
 def defect_facts(h5):
@@ -180,17 +220,25 @@ def defect_facts(h5):
         sv = sv.decode("utf-8")
     sv = str(sv)
     pipeline = [x.strip() for x in sv.split("|")]
-    last = ref_version(pipeline[-1][5:]) if sv and \
-        pipeline[-1].startswith("dclab") else None
-    first = ref_version(pipeline[0][7:]) if pipeline[0].startswith("ShapeIn") \
+    last = None
+    if sv and pipeline[-1].startswith("dclab"):
+        w = pipeline[-1].split()
+        last = model_version(w[1]) if len(w) > 1 else None
+    first = None
+    if pipeline[0].startswith("ShapeIn"):
+        w = pipeline[0].split()
+        first = model_version(w[1]) if len(w) > 1 else None
+    bare = model_version(pipeline[0]) if re.match(r"^\d", pipeline[0]) \
         else None
     ev = h5.get("events", {})
 
     def opt(v):
-        return "None" if v is None else "(Some (%d, %d, %d))" % v
-    return "(mkFacts %s %s %s %s %s %s %s %s %s)" % (
+        return "None" if v is None else "(Some (%d, %d, %d, %s))" % (
+            v[0], v[1], v[2], common.zlit(v[3]))
+    return "(mkFacts %s %s %s %s %s %s %s %s %s %s %s)" % (
         common.blit(sv in ("ShapeIn 2.0.6", "ShapeIn 2.0.7")),
         common.blit("ShapeIn" in sv), opt(last), opt(first),
+        common.blit("shapein-acquisition" in h5.get("logs", {})), opt(bare),
         common.blit("dclab_issue_141" in h5.get("logs", {})),
         common.blit("frame" in ev),
         common.blit(h5.attrs.get("imaging:frame rate", 0) != 0),
@@ -222,6 +270,31 @@ DEFECT_TABLE = [
     ("ShapeIn 2.0.4 | dclab 0.48.2", {"roi": 400}, set()),
     ("verifgen 1.0 | dclab 0.48.0", {"roi": 600},
      {"inert_ratio_prnc", "tilt", "inert_ratio_raw", "inert_ratio_cvx"}),
+    # three-stage pipelines: only the first and the last entry count
+    ("ShapeIn 2.0.5 | dclab 0.30.0 | dclab 0.50.0", {"roi": 600}, set()),
+    ("ShapeIn 2.0.4 | dclab 0.50.0 | dclab 0.30.0", {"roi": 600},
+     {"volume", "time", "inert_ratio_prnc", "tilt", "inert_ratio_raw",
+      "inert_ratio_cvx"}),
+    ("ShapeIn 2.0.6 | ShapeOut 2.1 | dclab 0.36.1", {}, {"volume", "time"}),
+    # pre/post/dev releases (PEP 440 order)
+    ("ShapeIn 2.0.5 | dclab 0.47.6rc1", {}, {"time"}),
+    ("ShapeIn 2.0.5 | dclab 0.47.6.post1", {}, set()),
+    ("ShapeIn 2.0.5 | dclab 0.36.1.post2", {}, {"volume", "time"}),
+    ("ShapeIn 2.0.5 | dclab 0.37.0.dev3", {}, {"volume", "time"}),
+    ("ShapeIn 2.0.5 | dclab 0.48.3.dev1", {"roi": 600},
+     {"inert_ratio_prnc", "tilt"}),
+    ("ShapeIn 2.0.5rc2 | dclab 0.48.2", {"roi": 600},
+     {"inert_ratio_prnc", "tilt", "inert_ratio_raw", "inert_ratio_cvx"}),
+    # newer Shape-In: bare version + acquisition log
+    ("2.1.6 | dclab 0.48.0", {"roi": 600, "acq": True},
+     {"inert_ratio_prnc", "tilt"}),
+    ("2.1.6 | dclab 0.48.0", {"roi": 600},
+     {"inert_ratio_prnc", "tilt", "inert_ratio_raw", "inert_ratio_cvx"}),
+    ("2.0.4 | dclab 0.48.0", {"roi": 600, "acq": True},
+     {"inert_ratio_prnc", "tilt", "inert_ratio_raw", "inert_ratio_cvx"}),
+    # exact match only
+    ("ShapeIn 2.0.6 ", {}, set()),
+    ("ShapeIn 2.0.60", {}, set()),
 ]
 
 
@@ -247,6 +320,8 @@ def ref_selftest():
             ev["frame"] = _FakeDs(False)
         h5["events"] = ev
         h5["logs"] = {"dclab_issue_141": 1} if facts.get("issue141") else {}
+        if facts.get("acq"):
+            h5["logs"]["shapein-acquisition"] = 1
         got = ref_defective(h5)
         if got != want:
             raise AssertionError("defect reference: %r %r -> %r, table says %r"
@@ -256,7 +331,7 @@ def ref_selftest():
 def gen_case(rng, thorough=False, force=None):
     force = force or {}
     n = rng.choice([0, 1, 1, 2, 3, 4, 5, 7, 8, 9, 13])
-    if rng.random() < 0.9 and n == 0:
+    if rng.random() < 0.5 and n == 0:
         n = rng.choice([1, 3, 6])
     feats = []
     names = list(SCALARS)
@@ -315,6 +390,7 @@ def gen_case(rng, thorough=False, force=None):
         tables.append(dict(name="tab-%d" % k, rows=rng.choice([0, 1, 2, 5]),
                            nattrs=rng.choice([0, 1, 2]),
                            plain=rng.random() < 0.2,
+                           fields=rng.choice(["mixed", "wide"]),
                            layout=rng.choice(["contig", "chunk_eq", "gzip",
                                               "zstd5_raw"])))
     basins = []
@@ -354,6 +430,10 @@ def gen_case(rng, thorough=False, force=None):
             for f in feats:
                 if f["name"] == "time":
                     f["dtype"] = "f4"
+        if facts.get("acq"):
+            logs.append(dict(name="shapein-acquisition", kind="fixed",
+                             lines=2, longest=30, utf8=False,
+                             layout="contig"))
         if facts.get("issue141"):
             logs = [lg for lg in logs if lg["name"] != "dclab_issue_141"]
             logs.append(dict(name="dclab_issue_141", kind="fixed", lines=2,
@@ -707,14 +787,30 @@ def build_input(case, d, tag="in"):
                     data = np.array([[rng.randint(-9, 9) / 4 for _ in range(3)]
                                      for _ in range(rows)]).reshape(rows, 3)
                 else:
-                    dt = np.dtype([("alpha", "f8"), ("beta", "i8"),
-                                   ("gamma", "f4")])
-                    data = np.zeros(rows, dtype=dt)
-                    data["alpha"] = [rng.randint(-50, 50) / 4
-                                     for _ in range(rows)]
-                    data["beta"] = [rng.randint(0, 1000) for _ in range(rows)]
-                    data["gamma"] = [rng.randint(0, 64) / 8
-                                     for _ in range(rows)]
+                    if spec.get("fields") == "wide":
+                        dt = np.dtype([("idx", "u1"), ("label", "S6"),
+                                       ("value", "<i2"), ("weight", "f8"),
+                                       ("big", "<u8")])
+                        data = np.zeros(rows, dtype=dt)
+                        data["idx"] = [rng.randint(0, 255) for _ in range(rows)]
+                        data["label"] = [rng.choice([b"", b"ab", b"abcdef"])
+                                         for _ in range(rows)]
+                        data["value"] = [rng.randint(-300, 300)
+                                         for _ in range(rows)]
+                        data["weight"] = [rng.choice([0.5, np.nan, np.inf])
+                                          for _ in range(rows)]
+                        data["big"] = [rng.choice([0, 2 ** 40, 2 ** 63])
+                                       for _ in range(rows)]
+                    else:
+                        dt = np.dtype([("alpha", "f8"), ("beta", "i8"),
+                                       ("gamma", "f4")])
+                        data = np.zeros(rows, dtype=dt)
+                        data["alpha"] = [rng.randint(-50, 50) / 4
+                                         for _ in range(rows)]
+                        data["beta"] = [rng.randint(0, 1000)
+                                        for _ in range(rows)]
+                        data["gamma"] = [rng.randint(0, 64) / 8
+                                         for _ in range(rows)]
                 t = tg.create_dataset(spec["name"], data=data,
                                       **layout_kwargs(spec["layout"],
                                                       data.shape))
@@ -766,7 +862,8 @@ class Names:
             if not create:
                 return 999
             base = {"attr": 10, "val": 0, "feat": 10, "child": 0, "log": 10,
-                    "table": 10, "basin": 10, "rest": 0, "dtype": 0}[kind]
+                    "table": 10, "basin": 10, "rest": 0, "dtype": 0,
+                    "seg": 10}[kind]
             t[name] = base + len(t)
         return t[name]
 
@@ -797,7 +894,18 @@ def elems_of(arr):
             out.append(list(bytes(x)))
         return out
     if a.dtype.kind == "V":
-        return [[num_code(x[k]) for k in a.dtype.names] for x in a.ravel()]
+        out = []
+        for x in a.ravel():
+            e = []
+            for k in a.dtype.names:
+                v = x[k]
+                if isinstance(v, (bytes, np.bytes_, str)):
+                    b = v.encode("utf-8") if isinstance(v, str) else bytes(v)
+                    e += [len(b)] + list(b)
+                else:
+                    e.append(num_code(v))
+            out.append(e)
+        return out
     if a.dtype.kind == "f":
         flat = a.ravel().astype(np.float64)
         ok = np.isfinite(flat) & (np.abs(flat) < 2 ** 53) & \
@@ -825,6 +933,9 @@ def obs_dset(ds, names, ref=None, auto_chunks=False, is_output=False):
         chunks = [-1]
     k = ds.dtype.kind
     kind = {"O": 1, "S": 2, "V": 3}.get(k, 0)
+    if kind == 3:
+        # compound: field names and field dtypes belong to the content
+        kind = 300 + names.get("dtype", repr(ds.dtype.descr))
     if kind == 0 and ds.dtype.str != "<f8" and not auto_chunks:
         # (datasets written by RTDCWriter, `auto_chunks`: dtype is C01's)
         kind = 100 + names.get("dtype", ds.dtype.str)
@@ -874,6 +985,36 @@ def basin_dict(ds):
     return json.loads(" ".join(lines))
 
 
+def soft_chain(value):
+    """segments of a software version chain 'a | b | c'"""
+    if isinstance(value, bytes):
+        value = value.decode("utf-8")
+    return [x.strip() for x in str(value).split("|") if x.strip()]
+
+
+def soft_expected(value, task):
+    """The software version string a task must write (stated rule, not read
+    from the code): compress and condense open their output with RTDCWriter,
+    which appends ' | dclab <version>' unless the chain ends with it (and
+    re-joins the segments with ' | '); repack/rtdc_copy copy verbatim."""
+    import dclab
+    if isinstance(value, bytes):
+        value = value.decode("utf-8")
+    if task not in ("compress", "condense"):
+        return value
+    chain = soft_chain(value)
+    cur = "dclab %s" % dclab.__version__
+    if not chain or chain[-1] != cur:
+        chain.append(cur)
+    return " | ".join(chain)
+
+
+def soft_ids(value, names):
+    import dclab
+    cur = "dclab %s" % dclab.__version__
+    return [1 if x == cur else names.get("seg", x) for x in soft_chain(value)]
+
+
 def soft_strip(value, version, ref_value=None):
     """RTDCWriter appends its own version to the software version of the
     files it touches (compress, condense): undo that"""
@@ -902,7 +1043,7 @@ def observe(path, names, ref_path=None, is_output=False, in_md5=None,
     import h5py
     import dclab
     out = dict(attrs=[], events=[], bevents=[], logs=[], tables=[],
-               basins=[], other=[])
+               basins=[], other=[], soft=[])
     ref = h5py.File(ref_path, "r") if ref_path else None
 
     def refget(p):
@@ -916,8 +1057,10 @@ def observe(path, names, ref_path=None, is_output=False, in_md5=None,
         with h5py.File(path, "r") as h5:
             for key in h5.attrs:
                 v = h5.attrs[key]
-                if is_output and key == "setup:software version":
-                    v = soft_strip(v, dclab.__version__, ref.attrs.get(key))
+                if key == "setup:software version":
+                    # modelled as a chain of segments (f_soft), no stripping
+                    out["soft"] = soft_ids(v, names)
+                    continue
                 out["attrs"].append([names.get("attr", key),
                                      names.get("val", attr_value_key(v))])
             for name in h5.get("events", {}):
@@ -1031,6 +1174,7 @@ def rows_of(f):
         rows.append([5, kid, 1 if internal else 0, rest, len(feats)] + feats
                     + enc_dset(d))
     rows += f.get("other", [])
+    rows.append([6] + list(f.get("soft", [])))
     return sorted(rows)
 
 
@@ -1045,7 +1189,7 @@ def canon_model_rows(rows, content_only=False):
         r = list(r)
         if r[0] in (7, 8) and content_only:
             continue
-        if r[0] in (7, 8, 9):
+        if r[0] in (6, 7, 8, 9):
             out.append(r)
             continue
         if r[0] == 0:
@@ -1111,10 +1255,11 @@ def coq_file(f):
                                            common.zlist(feats),
                                            common.zlit(rest)))
               for kid, internal, feats, rest, d in f["basins"]]
-    return "(mkF %s %s %s %s %s %s)" % (
+    return "(mkF %s %s %s %s %s %s %s)" % (
         coq_pairs(f["attrs"]), coq_named(ev, lambda s: s),
         coq_named(f["bevents"], coq_dset), coq_named(f["logs"], coq_dset),
-        coq_named(f["tables"], coq_dset), coq_named(basins, lambda s: s))
+        coq_named(f["tables"], coq_dset), coq_named(basins, lambda s: s),
+        common.zlist(f.get("soft", [])))
 
 
 HEADER = ("From Coq Require Import ZArith List Bool.\nImport ListNotations.\n"
@@ -1190,8 +1335,8 @@ def compare_content(case, path_in, path_out, second=False):
                 return "metadata %s lost" % k
             a, b = hi.attrs[k], ho.attrs[k]
             if k == "setup:software version":
-                a = a.decode() if isinstance(a, bytes) else a
-                b = soft_strip(b, dclab.__version__, a)
+                a = soft_expected(a, task)
+                b = b.decode() if isinstance(b, bytes) else b
             if attr_value_key(a) != attr_value_key(b):
                 return "metadata %s: %r -> %r" % (k, a, b)
         for k in ho.attrs:
@@ -1289,7 +1434,7 @@ def compare_content(case, path_in, path_out, second=False):
                     sorted(di), sorted(do))
             if not strip_basins:
                 for name in bev_in:
-                    if name in ev_in or not feature_exists(name):
+                    if not feature_exists(name):
                         continue
                     if name not in bev_out:
                         return "internal basin feature %s lost" % name
@@ -1598,6 +1743,8 @@ def judge(case, d, path_in):
     path_out = os.path.join(d, "out.rtdc")
     path_out2 = os.path.join(d, "out2.rtdc")
     sha0 = sha256(path_in)
+    origin = os.path.join(d, "in-origin.rtdc")
+    sha_origin = sha256(origin) if os.path.exists(origin) else None
     in_md5 = file_md5(path_in)
     ci = condense_inputs(case, path_in) if task == "condense" else None
     fail = None
@@ -1607,6 +1754,8 @@ def judge(case, d, path_in):
         fail = "%s raised %r" % (task, e)
     if sha256(path_in) != sha0:
         fail = "the input file was modified by %s (%s)" % (task, fail)
+    if sha_origin is not None and sha256(origin) != sha_origin:
+        fail = "the basin origin file was modified by %s (%s)" % (task, fail)
     if fail is None:
         fail = compare_content(case, path_in, path_out)
     if fail is None and ci is not None:
@@ -1661,7 +1810,7 @@ def judge(case, d, path_in):
         tnum, flags = 1, [warned]
     elif task == "condense":
         tnum, flags = 2, [opts["store_ancillary_features"],
-                          opts["store_basin_features"], warned]
+                          opts["store_basin_features"], warned, True]
     else:
         tnum, flags = 3, [opts["include_basins"], opts["include_logs"],
                           opts["include_tables"]]
